@@ -61,6 +61,8 @@ KINDS = {
 # family -> (fft_settings factory, record lengths, smoothing)
 FAMILIES = {
     "nopad": dict(fft=lambda: {"n": None}, varied=False, smoothing=("konno_and_ohmachi", 10.0)),
+    "nopad_parzen": dict(fft=lambda: {"n": None}, varied=False, smoothing=("parzen", 1.5)),
+    "nopad_rectangular": dict(fft=lambda: {"n": None}, varied=False, smoothing=("linear_rectangular", 4.0)),
     "default": dict(fft=lambda: None, varied=True, smoothing=("konno_and_ohmachi", 40.0)),
     "n128": dict(fft=lambda: {"n": 128}, varied=True, smoothing=("konno_and_ohmachi", 40.0)),
 }
@@ -399,14 +401,18 @@ def plan(tier):
         hist=dict(kinds=["geometric_mean", "single_azimuth"] if q else list(KINDS), pool=_pool([0, 1, 2], [0]),
                   fcs=["low", "mid"], xlen=2 if q else 3, ylen=2),
     )
+    if not q:       # two more smoothing operators (their row stacking differs) on a pool of 2 per time step
+        for fam in ("nopad_parzen", "nopad_rectangular"):
+            p[fam] = dict(family=fam, kinds=TD3, pool=_pool([0, 1, 2], [0, 1]), fcs=["low"], groups=[[1, 2, 3], [4]])
     return p
 
 
 def roots(tier, seed):
     p = plan(tier)
     out = []
-    for name in ("main", "azim", "nyq", "dflt"):
-        b = p[name]
+    for name, b in p.items():
+        if name == "hist":
+            continue
         out += _joint_roots(b["family"], b["kinds"], b["pool"], b["fcs"], b["groups"])
     h = p["hist"]
     for kind in h["kinds"]:
@@ -431,6 +437,8 @@ def run_root(root, ctx, tier):
         _run_history(root, ctx)
     elif part == "degenerate":
         _run_degenerate(root, ctx)
+    elif part == "finalize":
+        pass            # the vacuity verdict belongs to a complete run, not to one root
     else:
         raise KeyError(part)
 
@@ -483,9 +491,8 @@ def _fresh(ctx, root, kind, policy, fcsname, Y):
         s = family_settings("n128", kind, policy, fcsname)
         res = run_process(build_list(Y, True), s)
         ctx.count("transitions")
-        ctx.count("states")
+        ctx.count("fresh_settings_reference_executions")    # cached per worker process: not a 'state'
         judge(ctx, root, "n128", kind, policy, fcsname, Y, res)
-        ctx.count("validated")
         _FRESH[key] = (res, settings_state(s))
     return _FRESH[key]
 
@@ -564,6 +571,15 @@ def _degenerate_setup(case):
     return cfg, bad, good, lists
 
 
+RECIPES = {
+    "empty_smoothing_window": "ns=noise101, ew=noise102, vt=noise103 (healthy; the window around 2.3 Hz is empty)",
+    "zero_vertical": "ns=noise101, ew=noise102, vt=zeros",
+    "zero_everything": "ns=ew=vt=zeros",
+    "negative_smoothed_horizontal": "ns=lines, ew=0.5*lines, vt=noise103",
+    "negative_smoothed_vertical": "ns=noise101, ew=noise102, vt=lines",
+}
+
+
 def _run_degenerate(root, ctx):
     kind, case = root["kind"], root["case"]
     cfg, bad, good, lists = _degenerate_setup(case)
@@ -576,7 +592,13 @@ def _run_degenerate(root, ctx):
         ctx.count("validated")
         ctx.nontrivial_case(("degenerate", kind, case, name))
         detail = dict(kind=kind, kind_parameters=KINDS[kind], case=case, list=name, config=cfg,
-                      how="see hvmc.checks.c03._degenerate_setup(case): 64 samples, dt 0.01, fft_settings={'n': None}")
+                      policy="frequency_domain_resampling", fft_settings="{'n': None}", samples=L_NOPAD,
+                      recordings=[dict(which=w, dt=dt, components=RECIPES[case] if w == "bad" else
+                                       f"ns=noise104+{0.25 * j}, ew=noise105, vt=noise106") for j, (w, dt) in
+                                  enumerate(spec)],
+                      how="signals are hvmc.alphabets.sig_array(name, 64); lines = two_sines + 1e-9*noise101; "
+                          "settings = hvmc.checks.c03.make_settings(kind, policy, config.fcs, {'n': None}, "
+                          "config.smoothing, config.tukey)")
         if res["status"] == "raised":
             ctx.count("degenerate_refused")
             ctx.outcome(("degenerate", case, "refused", res["type"]))
@@ -601,8 +623,8 @@ def _run_degenerate(root, ctx):
 
 # ---------------------------------------------------------------------------
 
-def warm():
-    for family in ("nopad", "default"):
+def warm(tier="thorough"):
+    for family in FAMILIES if tier != "quick" else ("nopad", "default", "n128"):
         for kind in KINDS:
             run_process(build_list([0, 9], FAMILIES[family]["varied"]),
                         family_settings(family, kind, POLICIES[0], "low"))
@@ -634,7 +656,7 @@ def describe(tier):
         rule="joint part: every list (with repetition, every order) of length 1..4 over a pool of distinguishable "
              "broadband three-component recordings (pool sizes below; 4 members per time step in the thorough main "
              "block) x 3 dissimilar-time-step policies x processing kind x centre-frequency set, FFT length fixed "
-             "(nopad: 64-sample records with fft_settings={'n': None}; default: records of 33..64 samples with "
+             "(nopad*: 64-sample records with fft_settings={'n': None}; default: records of 33..64 samples with "
              "fft_settings=None -> 32768); lists with a repeated recording additionally with the very same object. "
              "history part: every pair (X, Y) of lists processed with ONE settings object carrying "
              "fft_settings={'n': 128}. degenerate part: 5 undefined-ratio recordings x 4 lists x 4 kinds. "
@@ -657,7 +679,8 @@ def describe(tier):
             "unchanged (in-place tapering of inputs is property C09)",
             "on a tie of the majority policy any single maximal time-step class is accepted",
             "row equality with process([record]) is bitwise (same code path); one smoothing operator per family "
-            "(Konno-Ohmachi b=10 on the 64-point grids, b=40 on the 32768-point grid)",
+            "(Konno-Ohmachi b=10 on the 64-point grids, b=40 on the 32768-point grid; thorough adds Parzen and "
+            "linear-rectangular families)",
             "centre-frequency sets are far from every Nyquist frequency (no knife-edge case)",
             "degenerate recordings: any exception counts as refusal; only 'refuse or finite non-negative' is judged",
         ])
